@@ -9,8 +9,9 @@
 //           F v_1..v_N (16-hex doubles, `nan` = missing); the features must be grouped S*, M*, F* (generator order)
 //   crit    0 rss, 1 aic, 2 aicc, 3 bic
 //
-// Result: see `print_*` below; for the learners whose fit is not modelled (kbest, ksplit, dtree) the fitted
-// parameters are appended to the augmented op so that the model evaluates predict / split / scale / merge on them.
+// Result: see `print_*` below. Every learner is fitted by the model itself (lean/NanoVerif/Model/WLearner.lean,
+// WLearnerTree.lean for the decision tree, WLearnerKTable.lean for the k-best / k-split tables); the augmented op only
+// carries `epsilon1<scalar_t>()`.
 #include "common.h"
 #include <limits>
 #include <nano/core/numeric.h>
@@ -426,7 +427,7 @@ std::string op_wl(toks_t& toks, std::string& aug)
     }
     const auto all       = arange(0, sp.N);
     const auto samples   = to_indices(sp.samples);
-    const auto unmodeled = sp.kind == "kbest" || sp.kind == "ksplit" || sp.kind == "dtree";
+    const auto unmodeled = false; // every fit is modelled (lean/NanoVerif/Model/WLearner{,Tree,KTable}.lean)
 
     out_t out;
     out << "ok"
